@@ -15,6 +15,7 @@ from mujoco_warp._src.collision_primitive_core import plane_box
 from mujoco_warp._src.collision_primitive_core import plane_capsule
 from mujoco_warp._src.collision_primitive_core import plane_sphere
 from mujoco_warp._src.collision_primitive_core import sphere_capsule
+from mujoco_warp._src.collision_primitive_core import sphere_cylinder
 from mujoco_warp._src.collision_primitive_core import sphere_sphere
 from mujoco_warp._src.math import closest_segment_point
 from mujoco_warp._src.math import make_frame
@@ -271,4 +272,22 @@ def k_plane_box(plane_normal: wp.vec3, plane_pos: wp.vec3, box_pos: wp.vec3, box
   for i in range(8):
     dist_out[i] = dist[i]
     pos_out[i] = pos[i]
+  normal_out[0] = n
+
+
+@wp.kernel
+def k_sphere_cylinder(
+  sphere_pos: wp.vec3,
+  sphere_radius: float,
+  cylinder_pos: wp.vec3,
+  cylinder_axis: wp.vec3,
+  cylinder_radius: float,
+  cylinder_half_height: float,
+  dist_out: wp.array[float],
+  pos_out: wp.array[wp.vec3],
+  normal_out: wp.array[wp.vec3],
+):
+  dist, pos, n = sphere_cylinder(sphere_pos, sphere_radius, cylinder_pos, cylinder_axis, cylinder_radius, cylinder_half_height)
+  dist_out[0] = dist
+  pos_out[0] = pos
   normal_out[0] = n
